@@ -511,4 +511,70 @@ theorem apply_mdOp {fs fs' : FS} {o : Op}
       subst h
       refine ⟨rfl, t, t, ?_, ?_, fun _ _ => rfl, by simp, fun _ => rfl⟩ <;> simp_all
 
+
+
+/-- one of the three operations of a metadata flush, chunk phase or final flush -/
+theorem inv_flush {cs : List Chunk} {v : Variant} {c : Cfg} {x : Item} {rest : List Item} {o : Op} (h : Inv cs v c)
+    (hp : c.prog = x :: rest) (hx16 : 16 ≤ rank x)
+    (hxo : (∃ p, x = .flushOpen p ∧ o = .openTrunc .temp .md) ∨ (∃ p, x = .flushWrite p ∧ o = .write .temp .md (.json c.md)) ∨
+           (∃ p, x = .flushClose p ∧ o = .close .temp .md)) :
+    Inv cs v (c.doOp o rest) := by
+  have hs : Shape (x :: rest) := hp ▸ h.shape
+  have hge : rank x ≤ hr rest := hs.hr_rest_ge
+  have hoo : o = .openTrunc .temp .md ∨ (∃ c', o = .write .temp .md c') ∨ o = .close .temp .md := by
+    rcases hxo with ⟨_, _, rfl⟩ | ⟨_, _, rfl⟩ | ⟨_, _, rfl⟩
+    · exact Or.inl rfl
+    · exact Or.inr (Or.inl ⟨_, rfl⟩)
+    · exact Or.inr (Or.inr rfl)
+  have hnq : x ≠ .waitQuiet := by rcases hxo with ⟨_, rfl, _⟩ | ⟨_, rfl, _⟩ | ⟨_, rfl, _⟩ <;> simp
+  have hnm : x ≠ .markClosed := by rcases hxo with ⟨_, rfl, _⟩ | ⟨_, rfl, _⟩ | ⟨_, rfl, _⟩ <;> simp
+  rcases doOp_eq c o rest with ⟨fs', ha, he⟩ | he
+  · rw [he]
+    obtain ⟨hfin, t, t', ht, ht', hag, hwr, hcl⟩ := apply_mdOp hoo ha
+    refine inv_late hs.tail (by simp only; omega) h.wtemp (quiet_pop (c := c) h hp hnq) (closed_pop (c := c) h hp hnm)
+      ?_ ?_ h.handTerm ?_
+    · -- the metadata file equals the metadata in memory from the final write on
+      intro h23 h24
+      simp only at h23 h24
+      by_cases hw : x = .flushWrite .last
+      · refine ⟨t', ht', ?_⟩
+        rcases hxo with ⟨_, rfl, _⟩ | ⟨_, _, rfl⟩ | ⟨_, rfl, _⟩
+        · simp at hw
+        · exact hwr _ rfl
+        · simp at hw
+      · by_cases hx23 : 23 ≤ rank x
+        · -- only the closing of the final flush is left in this range
+          have hcl' : o = .close .temp .md := by
+            rcases hxo with ⟨p, rfl, _⟩ | ⟨p, rfl, _⟩ | ⟨p, rfl, ho⟩
+            · cases p <;> simp [rank] at hx23
+            · cases p <;> simp [rank] at hx23 hw
+            · exact ho
+          obtain ⟨t0, ht0, hmd⟩ := h.synced (by rw [hp]; simpa using hx23) (by rw [hp]; simp only [hr_cons]; omega)
+          have := hcl hcl'
+          subst this
+          rw [ht] at ht0; injection ht0 with ht0; subst ht0
+          exact ⟨t', ht', hmd⟩
+        · have h22 : rank (Item.flushWrite .last) = 22 := rfl
+          have := hs.no_cross mem_milestones_fwLast (by omega) hw
+          omega
+    · intro d hd
+      exact h.safe d (by simpa [hfin] using hd)
+    · intro hh _ h25
+      have m := main_of_inv h hp hx16 hh
+      have hxa : ∀ ci, x ≠ .append ci := by rcases hxo with ⟨_, rfl, _⟩ | ⟨_, rfl, _⟩ | ⟨_, rfl, _⟩ <;> simp
+      have hxs : ∀ i ops, x ≠ .submit i ops := by rcases hxo with ⟨_, rfl, _⟩ | ⟨_, rfl, _⟩ | ⟨_, rfl, _⟩ <;> simp
+      have hxr : ∀ i, x ≠ .readInfo i := by rcases hxo with ⟨_, rfl, _⟩ | ⟨_, rfl, _⟩ | ⟨_, rfl, _⟩ <;> simp
+      have hxc : x ≠ .collect := by rcases hxo with ⟨_, rfl, _⟩ | ⟨_, rfl, _⟩ | ⟨_, rfl, _⟩ <;> simp
+      have hxj : x = .join → lastSt c.workers ≠ some .running ∧ lastSt c.workers ≠ some .failed := by
+        rcases hxo with ⟨_, rfl, _⟩ | ⟨_, rfl, _⟩ | ⟨_, rfl, _⟩ <;> simp
+      have hxw : x = .waitAll → anyRunning c.workers = false ∧ anyFailed c.workers = false := by
+        rcases hxo with ⟨_, rfl, _⟩ | ⟨_, rfl, _⟩ | ⟨_, rfl, _⟩ <;> simp
+      have m1 := main_pop m hp hge hxa hxs hxr hxc hxj hxw
+      have m2 := main_fs m1 fs' (by
+        intro t'' ht''
+        rw [ht'] at ht''; injection ht'' with ht''; subst ht''
+        exact ⟨t, ht, hag⟩)
+      exact m2
+  · rw [he]; exact inv_opFail h
+
 end Strax.FS
